@@ -186,6 +186,30 @@ def chain_srcs(rng, count):
     return out
 
 
+def _rise(h, lead, syms):
+    """an accepting run whose epsilon stretch RISES h symbols above both of its end configurations: (a letter,) h
+    epsilon pushes, h epsilon pops, accept - a search for the epsilon path must not bound the stack height by its ends"""
+    Q = ["r%d" % i for i in range(2 * h + 2)]
+    T = []
+    k = 0
+    if lead:
+        T.append([Q[0], "a", "ε", Q[1], "ε"])
+        k = 1
+    st = []
+    for i in range(h):
+        x = syms[i % len(syms)]
+        T.append([Q[k], "ε", "ε", Q[k + 1], x])
+        st.append(x)
+        k += 1
+    for i in range(h):
+        T.append([Q[k], "ε", st.pop(), Q[k + 1], "ε"])
+        k += 1
+    return ({"kind": "pda_trans", "Q": Q[: k + 1], "S": "a", "G": sorted(set(syms)), "q0": Q[0], "F": [Q[k]], "T": T},
+            ["a"] if lead else [""])
+
+
+DEEP += [_rise(h, lead, syms) for h in (2, 3, 4) for lead in (0, 1) for syms in ("X", "XY")]
+
 SPECIAL = [
     # a^n b^n (Sipser)
     {"kind": "pda_trans", "Q": ["q1", "q2", "q3", "q4"], "S": "ab", "G": "0$", "q0": "q1", "F": ["q1", "q4"],
